@@ -384,6 +384,29 @@ def server_name_rules(ctx, w):
                       ok_msg="hostname bytes are exactly [A-Za-z0-9.-]",
                       bad_msg=f"{verdict}: the property allows only a hostname (ASCII letters, digits, '-', '.'), an IPv4 or a bracketed IPv6 literal; "
                               f"e.g. `exämple.com` or `example.cоm` (Cyrillic o) must be rejected")
+        # (a'') bracketed literal: decided by the IPv6 address parser; an extra character test on the literal may only refuse what no IPv6
+        # literal contains (IPv6char of the grammar = hex digits, ':' and '.', the last for an embedded dotted IPv4 tail)
+        if form == "bracket":
+            LIT = r"traits::index\(s, Range::Range\(start=1, end=.*\)\)"
+            parsed = any(re.match(rf"^str::parse\({LIT}\) is Ok$", a) and v is True for a, v in atoms) and any("Ipv6Addr" in t for t in val_ty)
+            verdict = None if parsed else "the bracketed literal is not handed to the Ipv6Addr parser on this accepting path"
+            want = {ord(c) for c in "0123456789abcdefABCDEF:."}
+            for a, v in p.conds:
+                m = re.match(rf"^Iterator::(any|all)\((?:str::bytes|str::chars)\({LIT}\), (?:closure|fn)\[([^\]]+)\](\{{.*\}})?\)$", D.show_atom(a))
+                if not m:
+                    continue
+                clo = w.lookup(m.group(2))
+                tt = byte_truth_table(w, clo) if clo is not None and "body" in clo else "the character predicate has no body"
+                if isinstance(tt, str):
+                    verdict = tt
+                    continue
+                quant = m.group(1)
+                allowed = {b for b in range(256) if (tt[b] if quant == "all" else not tt[b])} if (v is True) == (quant == "all") else set(range(256))
+                if not want <= allowed:
+                    verdict = (f"an extra character test on the bracketed literal refuses {[chr(b) for b in sorted(want - allowed)]}, which IPv6 literals contain "
+                               f"(e.g. `[::ffff:192.0.2.1]` is a valid IPv6 literal and is rejected)")
+            ctx.check(verdict is None, "C10.server_name", f"C10.server_name:ipv6-literal:{'port' if has_port else 'noport'}", w.where(f),
+                      ok_msg="bracketed literal accepted iff Ipv6Addr parses it (no narrower character pre-filter)", bad_msg=str(verdict))
         # (b), (c) the port
         if has_port:
             ports = [a for a, v in atoms if a.startswith("str::parse(traits::index(s, RangeFrom") and a.endswith(" is Ok") and v]
